@@ -222,7 +222,17 @@ SShadow ==
               Pat1("some", Ev("t", "", Pr(SShadowQ)))) : r \in {"q", "nope", "n"}}
   \cup {Prop(Scope("after", Ev("w", "j", NoPred), NoPred), Pat2(t, Ev("t", "", Pr(SShadowQ)), Ev("u", "", Pr(Bn(">", Own("k"), Fld(VarR("@j"), r)))))) :
               t \in {"causes", "requires"}, r \in {"q", "nope"}}
-SchemaShapes == SDisjAlias \cup SShadow \cup
+\* every position of every scope / pattern combination carries a (valid or faulty) reference once: the terminator of an
+\* `until` scope under a unary pattern, the activator, the trigger and the behaviour of each binary pattern
+SPosRefs == {Bn(">", Own("n"), NumA("0")), Bn(">", Own("nope"), NumA("0")), Bn(">", Idx(Own("fx"), NumA("3")), NumA("0")), Bn("=", Own("s"), NumA("1"))}
+SPositions ==
+  {Prop(Scope("until", NoPred, Ev("u", "", Pr(c))), Pat1(t, Ev("t", "", NoPred))) : t \in {"some", "no"}, c \in SPosRefs}
+  \cup {Prop(Scope("until", NoPred, Ev("u", "", Pr(c))), Pat2(t, Ev("t", "", NoPred), Ev("w", "", NoPred))) : t \in {"causes", "requires", "forbids"}, c \in SPosRefs}
+  \cup {Prop(Scope("after", Ev("u", "", Pr(c)), NoPred), Pat1(t, Ev("t", "", NoPred))) : t \in {"some", "no"}, c \in SPosRefs}
+  \cup {Prop(Scope("after_until", Ev("t", "", NoPred), Ev("u", "", Pr(c))), Pat1("no", Ev("w", "", NoPred))) : c \in SPosRefs}
+  \cup {Prop(Scope("globally", NoPred, NoPred), Pat2(t, Ev("u", "", Pr(c)), Ev("t", "", NoPred))) : t \in {"causes", "requires", "forbids"}, c \in SPosRefs}
+  \cup {Prop(Scope("globally", NoPred, NoPred), Pat2(t, Ev("t", "", NoPred), Ev("u", "", Pr(c)))) : t \in {"causes", "requires", "forbids"}, c \in SPosRefs}
+SchemaShapes == SDisjAlias \cup SShadow \cup SPositions \cup
   {Prop(Scope("after", Ev("t", "A", NoPred), NoPred), Pat1("no", Ev("u", "", Pr(c)))) : c \in SBound} \cup
   {Prop(Scope("after", Ev("t", "A", NoPred), NoPred), Pat1("no", Ev("u", "", Pr(c)))) : c \in SPreds \cup SRepeat}
   \cup {Prop(Scope("globally", NoPred, NoPred), Pat2("causes", Ev("t", "A", Pr(Bn(">", Own("n"), NumA("0")))), Ev("w", "", Pr(c)))) : c \in UNION {SCtx(r) : r \in {Own("n"), Own("q"), Fld(VarR("@A"), "n"), Fld(VarR("@A"), "q")}}}
